@@ -199,6 +199,13 @@ class UpgradedSignature(_util.funcsigs.Signature):
             parameters = self.parameters.values()
         else:
             parameters = _upgrade_parameters_with_warning(parameters, stacklevel=_stacklevel + 1)
+            if sources is self.sources:
+                # nothing may refer to a parameter that is not there any more
+                # (inspect drops the first one when it looks at a bound method)
+                names = set(param.name for param in parameters or ())
+                sources = dict(
+                    (name, source) for name, source in sources.items()
+                    if name in names or name == '+depths')
         try:
             upgraded_return_annotation = kwargs.pop("upgraded_return_annotation")
         except KeyError:
